@@ -103,6 +103,19 @@ class TDN(t.TypedDict):
     b: te.NotRequired[str]
 
 
+class TDBase(t.TypedDict):
+    id: int
+
+
+class TDChild(TDBase, total=False):  # `id` stays required although this class is total=False
+    nick: str
+
+
+class TDReq(t.TypedDict, total=False):
+    key: te.Required[int]
+    note: str
+
+
 class Plain:
     a: int
     b: str
